@@ -72,12 +72,20 @@ def unitary(n, instrs, phase=0.0):
     return Operator(build(n, instrs, phase).reverse_bits()).data
 
 
+def _angle(rng):
+    # mostly ordinary angles; sometimes the tiny ones of a QFT tail / small Trotter step (6e-4 … 3e-6), where a long-range gate's
+    # second operator-Schmidt value sits just above the gate library's cut-off
+    if rng.random() < 0.1:
+        return rng.choice([-1, 1]) * 10.0 ** (-rng.uniform(3.2, 5.5))
+    return rng.uniform(-3.1, 3.1)
+
+
 def rand_instrs(rng, n, m, plong=0.35, p1=0.4, two=None):
     out = []
     for _ in range(m):
         if n < 2 or rng.random() < p1:
             g = rng.choice(ONEQ)
-            out.append([g, [rng.randrange(n)], [rng.uniform(-3.1, 3.1) for _ in range(NPAR.get(g, 0))]])
+            out.append([g, [rng.randrange(n)], [_angle(rng) for _ in range(NPAR.get(g, 0))]])
         else:
             g = rng.choice(two or TWOQ)
             if n > 2 and rng.random() < plong:
@@ -87,7 +95,7 @@ def rand_instrs(rng, n, m, plong=0.35, p1=0.4, two=None):
                 b = a + 1
                 if rng.random() < 0.5:
                     a, b = b, a
-            out.append([g, [a, b], [rng.uniform(-3.1, 3.1) for _ in range(NPAR.get(g, 0))]])
+            out.append([g, [a, b], [_angle(rng) for _ in range(NPAR.get(g, 0))]])
     return out
 
 
